@@ -127,21 +127,28 @@ package s1
 // is modelled by its three-way wrap for |x| < 3*pi (range checked as an obligation), see /verif/lemmas/remainder_wrap.smt2.
 // The clause is split at the fullness boundary: when the expanded length is within 1e-14 of 2*pi the rounding slack of the
 // fullness test (2*dblEpsilon, one half ulp of 2*pi) is too small and the two expanded endpoints can meet or cross, giving a
-// point or a short interval instead of the full one (known finding, see /verif/known_findings.txt).
+// point or a short interval instead of the full one (known finding, see /verif/known_findings.txt). The shrinking direction
+// (negative margin) has the mirror-image flaw at the emptiness boundary (second known finding); away from the two boundaries
+// the clauses below are proved regime by regime (inverted intervals whose shrunk endpoints wrap are not covered).
 //@ func (i Interval) Expanded(margin float64) Interval
 //@   inline
 //@   fp
 //@   remwrap
 //@   timeout 120
 //@   ghost p float64
-//@   requires i.IsValid() && vcPt(p) && margin >= 0 && margin <= 100
+//@   requires i.IsValid() && vcPt(p) && margin >= -100 && margin <= 100
 //@   ensures [valid] result.IsValid()
-//@   ensures [kept-plain] !i.IsInverted() && i.Lo-margin > -math.Pi && i.Hi+margin < math.Pi && i.Contains(p) ==> result.Contains(p)
-//@   ensures [kept-wrap-low] !i.IsInverted() && i.Lo-margin < -math.Pi && i.Hi+margin < math.Pi && i.Lo-margin+2*math.Pi > i.Hi+margin+1e-14 && i.Contains(p) ==> result.Contains(p)
-//@   ensures [kept-wrap-high] !i.IsInverted() && i.Lo-margin > -math.Pi && i.Hi+margin > math.Pi && i.Lo-margin > i.Hi+margin-2*math.Pi+1e-14 && i.Contains(p) ==> result.Contains(p)
-//@   ensures [kept-inverted-plain] i.IsInverted() && i.Lo-margin > i.Hi+margin+1e-14 && i.Contains(p) ==> result.Contains(p)
-//@   ensures [kept-becomes-full] i.Length()+2*margin >= 2*math.Pi && i.Contains(p) ==> result.Contains(p)
-//@   ensures [kept-nearly-full] i.Length()+2*margin > 2*math.Pi-1e-14 && i.Length()+2*margin < 2*math.Pi && i.Contains(p) ==> result.Contains(p)
+//@   ensures [shrunk-plain] margin < 0 && !i.IsInverted() && !i.IsFull() && i.Lo-margin < i.Hi+margin-1e-14 && result.Contains(p) ==> i.Contains(p)
+//@   ensures [shrunk-inverted-no-wrap] margin < 0 && i.IsInverted() && i.Lo-margin < math.Pi && i.Hi+margin > -math.Pi && result.Contains(p) ==> i.Contains(p)
+//@   ensures [shrunk-to-nothing] margin < 0 && !i.IsFull() && i.Length()+2*margin <= 0 ==> result.IsEmpty()
+//@   ensures [shrunk-nearly-empty] margin < 0 && !i.IsFull() && i.Length()+2*margin > 0 && i.Length()+2*margin < 1e-14 && result.Contains(p) ==> i.Contains(p)
+//@   ensures [shrunk-full-stays-full] margin < 0 && i.IsFull() ==> result.IsFull()
+//@   ensures [kept-plain] margin >= 0 && !i.IsInverted() && i.Lo-margin > -math.Pi && i.Hi+margin < math.Pi && i.Contains(p) ==> result.Contains(p)
+//@   ensures [kept-wrap-low] margin >= 0 && !i.IsInverted() && i.Lo-margin < -math.Pi && i.Hi+margin < math.Pi && i.Lo-margin+2*math.Pi > i.Hi+margin+1e-14 && i.Contains(p) ==> result.Contains(p)
+//@   ensures [kept-wrap-high] margin >= 0 && !i.IsInverted() && i.Lo-margin > -math.Pi && i.Hi+margin > math.Pi && i.Lo-margin > i.Hi+margin-2*math.Pi+1e-14 && i.Contains(p) ==> result.Contains(p)
+//@   ensures [kept-inverted-plain] margin >= 0 && i.IsInverted() && i.Lo-margin > i.Hi+margin+1e-14 && i.Contains(p) ==> result.Contains(p)
+//@   ensures [kept-becomes-full] margin >= 0 && i.Length()+2*margin >= 2*math.Pi && i.Contains(p) ==> result.Contains(p)
+//@   ensures [kept-nearly-full] margin >= 0 && i.Length()+2*margin > 2*math.Pi-1e-14 && i.Length()+2*margin < 2*math.Pi && i.Contains(p) ==> result.Contains(p)
 
 // "The length of an empty interval is negative": and only of an empty one. Callers (Expanded's fullness test) add
 // margins to the length, so a non-empty interval reported with length -1 silently loses 1 radian.
